@@ -849,7 +849,10 @@ def install(eng):
         return M.transpose(eng, a, ax)
 
     @model("ndarray.clip", "numpy.clip")
-    def _clip(eng, a, min=None, max=None):
+    def _clip(eng, a, min=None, max=None, a_min=None, a_max=None):
+        min = a_min if min is None else min
+        max = a_max if max is None else max
+
         def c(v):
             if min is not None:
                 cm = T.compare("lt", v, min)
